@@ -213,6 +213,10 @@ def sxOp (s : McSx α) (op : String) (a : List Int) : Option (McSx α × String)
     if ds.length != s.b.n * s.b.P then none else
     let arr := ds.toArray
     some (s.addDeltaLinear (fun i p => Scal.ofIntShift (arr.getD (i * s.b.P + p) 0) 0), "")
+  | "xadddeltas", sh :: ds =>
+    if ds.length != s.b.n * s.b.P then none else
+    let arr := ds.toArray
+    some (s.addDeltaLinear (fun i p => Scal.ofIntShift (arr.getD (i * s.b.P + p) 0) sh.toNat), "")
   | "xlabel", [i] => if i.toNat < s.b.n then some (s, s!"label={s.b.labels i.toNat} ") else none
   | "xkkt", [] => some (s, s!"kkt={Scal.render s.checkKKT} ")
   | "xselect", [] => let r := s.selectWorkingSet; some (s, s!"i={r.1} j={r.2.1} viol={Scal.render r.2.2} ")
